@@ -1,4 +1,6 @@
+#![recursion_limit = "4096"]
 //! Type universes: U1 (static, real Rust types) and U2 (all type graphs up to N nodes).
+pub mod chain;
 pub mod u1;
 pub mod u2;
 pub mod u3;
